@@ -23,7 +23,8 @@ GWS = [[0.2, 0.5, 0.3], [1.0], [0.5, 0.5], [0.9, 0.1], [0.25, 0.5, 0.25], [1.0, 
        [0.25, 0.25, 0.25, 0.25], [0.1, 0.2, 0.3, 0.4]]
 DIMS = {
     'gw': GWS,
-    'spread': [1.0, 3.0, 10.0],
+    # (< 1: the coefficients fall with the quadrature point, the last point is the most transparent one)
+    'spread': [1.0, 3.0, 10.0, 0.1],
     'kind': ['transmission', 'emission', 'directimage'],
     'mag': ['tau1', 'thin', 'mixed', 'sat'],
     'N': [3, 2, 5],
@@ -240,7 +241,7 @@ def hist_install(case, gw, dirname='ktables'):
     KTableCache().clear_cache()
 
 
-def hist_build(case):
+def hist_build(case, net=None):
     fx.reset_caches()
     c = {'mag': 'tau1', 'gw': [0.2, 0.5, 0.3], 'spread': 3.0, 'grids': case['grids']}
     tabs = base_tables(c)
@@ -255,14 +256,19 @@ def hist_build(case):
     GlobalCache()['opacity_method'] = 'ktables'
     KTableCache().set_ktable_path(d)
     KTableCache().clear_cache()
-    return fx.build_model({'kind': case['kind'], 'N': 3, 'T': ['iso', 1200.0], 'ngauss': 2,
-                           'gases': [['H2O', ['const', 1e-4]], ['CH4', ['const', 3e-5]]], 'contribs': ['abs', 'ray']})
+    spec = {'kind': case['kind'], 'N': 3, 'T': ['iso', 1200.0], 'ngauss': 2,
+                           'gases': [['H2O', ['const', 1e-4]], ['CH4', ['const', 3e-5]]], 'contribs': ['abs', 'ray']}
+    if net is not None:
+        spec, rest = rthist.spec_with_net(spec, net)
+        return fx.build_model(spec), rest
+    return fx.build_model(spec)
 
 
 def hist_fn(case):
     r = core.R(case)
     rthist.run_history(r, case['hist'], lambda: hist_build(case), 'ktables/%s/%s' % (case['kind'], case['grids']),
-                       env_apply=lambda which: hist_env(case, which), as_numpy=bool(case.get('np')), entry=case.get('entry', 'model'))
+                       env_apply=lambda which: hist_env(case, which), build_with=lambda net: hist_build(case, net),
+                       as_numpy=bool(case.get('np')), entry=case.get('entry', 'model'))
     return r
 
 
